@@ -5,7 +5,7 @@
 #include <string.h>
 
 extern struct ec_backend_common backend_null, backend_flat_xor_hd, backend_isa_l_rs_vand,
-       backend_liberasurecode_rs_vand, backend_isa_l_rs_cauchy;
+       backend_liberasurecode_rs_vand, backend_isa_l_rs_cauchy, backend_shss;
 
 const char *be_name(int be)
 {
@@ -31,6 +31,7 @@ uint32_t lec_backend_version(int be)
     case EC_BACKEND_ISA_L_RS_VAND: return backend_isa_l_rs_vand.ec_backend_version;
     case EC_BACKEND_LIBERASURECODE_RS_VAND: return backend_liberasurecode_rs_vand.ec_backend_version;
     case EC_BACKEND_ISA_L_RS_CAUCHY: return backend_isa_l_rs_cauchy.ec_backend_version;
+    case EC_BACKEND_SHSS: return backend_shss.ec_backend_version;
     }
     return 0;
 }
@@ -104,6 +105,16 @@ explicit_w:
     return n;
 }
 
+int cfgs_shss(cfg_t *out, int max)
+{
+    /* shapes for the backend with per-fragment backend metadata (stand-in libshss, see shss_ref/) */
+    static const int sh[][2] = { {4, 2}, {10, 4}, {1, 1}, {3, 3}, {2, 5}, {6, 3}, {20, 4} };
+    int n = 0;
+    if (!liberasurecode_backend_available(EC_BACKEND_SHSS)) return 0;
+    for (size_t i = 0; i < sizeof sh / sizeof sh[0] && n < max; i++) out[n++] = (cfg_t){ EC_BACKEND_SHSS, sh[i][0], sh[i][1], sh[i][1], 0, CHKSUM_CRC32 };
+    return n;
+}
+
 int cfgs_xor(cfg_t *out, int max)
 {
     int n = 0;
@@ -124,7 +135,7 @@ void code_init(code_t *cd, const cfg_t *c)
     switch (c->be) {
     case EC_BACKEND_LIBERASURECODE_RS_VAND: rs_generator(c->k, c->m, cd->g16); break;
     case EC_BACKEND_ISA_L_RS_VAND: isal_vand_generator(c->k, c->m, cd->g8); break;
-    case EC_BACKEND_ISA_L_RS_CAUCHY: isal_cauchy_generator(c->k, c->m, cd->g8); break;
+    case EC_BACKEND_ISA_L_RS_CAUCHY: case EC_BACKEND_SHSS: isal_cauchy_generator(c->k, c->m, cd->g8); break;   /* the stand-in libshss is the same Cauchy code */
     case EC_BACKEND_FLAT_XOR_HD:
         cd->xt = xor_find(c->k, c->m, c->hd);
         if (cd->xt) xor_rows(cd->xt, cd->x);
@@ -136,7 +147,7 @@ int code_rank(const code_t *cd, const int *rows, int nrows)
 {
     switch (cd->be) {
     case EC_BACKEND_LIBERASURECODE_RS_VAND: return gf16_rank(cd->g16, cd->k, rows, nrows);
-    case EC_BACKEND_ISA_L_RS_VAND: case EC_BACKEND_ISA_L_RS_CAUCHY: return gf8_rank(cd->g8, cd->k, rows, nrows);
+    case EC_BACKEND_ISA_L_RS_VAND: case EC_BACKEND_ISA_L_RS_CAUCHY: case EC_BACKEND_SHSS: return gf8_rank(cd->g8, cd->k, rows, nrows);
     case EC_BACKEND_FLAT_XOR_HD: return gf2_rank(cd->x, rows, nrows);
     }
     return 0;
@@ -189,7 +200,7 @@ void stripe_free(stripe_t *s)
 /* ------------- expected fragments ------------- */
 uint64_t model_fragment_len(const cfg_t *c, uint64_t len)
 {
-    return ref_payload_size(c->be, c->k, len) + REF_HDR_LEN;
+    return ref_payload_size(c->be, c->k, len) + (uint64_t)ref_backend_metadata_bytes(c->be) + REF_HDR_LEN;
 }
 
 void model_fragment_header(const cfg_t *c, uint64_t len, int idx, const uint8_t *payload, int legacy, uint8_t out[80])
@@ -197,7 +208,7 @@ void model_fragment_header(const cfg_t *c, uint64_t len, int idx, const uint8_t 
     ref_hdr_t h;
     memset(&h, 0, sizeof h);
     uint64_t P = ref_payload_size(c->be, c->k, len);
-    h.idx = (uint32_t)idx; h.size = (uint32_t)P; h.bms = 0; h.orig = len;
+    h.idx = (uint32_t)idx; h.size = (uint32_t)P; h.bms = (uint32_t)ref_backend_metadata_bytes(c->be); h.orig = len;
     h.ct = (uint8_t)c->ct;
     if (c->ct == CHKSUM_CRC32) h.chksum[0] = legacy ? crc_legacy(payload, P) : crc_std(payload, P);
     h.mismatch = 0; h.beid = (uint8_t)c->be; h.bever = lec_backend_version(c->be);
@@ -218,17 +229,20 @@ void model_stripe(const cfg_t *c, const uint8_t *data, uint64_t len, int legacy,
         dp[i] = pl;
     }
     code_t cd;
-    if (c->be == EC_BACKEND_ISA_L_RS_VAND || c->be == EC_BACKEND_ISA_L_RS_CAUCHY || c->be == EC_BACKEND_FLAT_XOR_HD)
+    if (c->be == EC_BACKEND_ISA_L_RS_VAND || c->be == EC_BACKEND_ISA_L_RS_CAUCHY || c->be == EC_BACKEND_FLAT_XOR_HD || c->be == EC_BACKEND_SHSS)
         code_init(&cd, c);
     for (int j = 0; j < m; j++) {
         uint8_t *pl = out[k + j] + REF_HDR_LEN;
         switch (c->be) {
         case EC_BACKEND_LIBERASURECODE_RS_VAND: rs_model_parity(k, m, dp, P, k + j, pl); break;
-        case EC_BACKEND_ISA_L_RS_VAND: case EC_BACKEND_ISA_L_RS_CAUCHY: gf8_model_parity(cd.g8, k, dp, P, k + j, pl); break;
+        case EC_BACKEND_ISA_L_RS_VAND: case EC_BACKEND_ISA_L_RS_CAUCHY: case EC_BACKEND_SHSS: gf8_model_parity(cd.g8, k, dp, P, k + j, pl); break;
         case EC_BACKEND_FLAT_XOR_HD: xor_model_parity(cd.xt, dp, P, j, pl); break;
         default: memset(pl, 0, P);
         }
     }
+    /* backend-owned trailer behind the payload (stand-in libshss: 0x5A ^ 7*index ^ byte number) */
+    for (int i = 0; i < k + m && c->be == EC_BACKEND_SHSS; i++)
+        for (int b = 0; b < 32; b++) out[i][REF_HDR_LEN + P + (uint64_t)b] = (uint8_t)(0x5A ^ (i * 7) ^ b);
     for (int i = 0; i < k + m; i++)
         model_fragment_header(c, len, i, out[i] + REF_HDR_LEN, legacy, out[i]);
 }
